@@ -187,7 +187,7 @@ func (fr *Frame) indexAddr(i *ssa.IndexAddr) *Val {
 	case *types.Slice:
 		s := fr.scalar(x)
 		fr.oblige("P0", fr.ordName("P0/index"), and(app("<=", "0", idx), app("<", idx, sLen(s))))
-		l := &Loc{kind: locElem, ref: sArr(s), idx: app("+", sOff(s), idx), root: fr.eng.elemRoot(xt.Elem()), typ: xt.Elem()}
+		l := &Loc{kind: locElem, ref: sArr(s), idx: app("IDX", sOff(s), idx), root: fr.eng.elemRoot(xt.Elem()), typ: xt.Elem()}
 		return &Val{loc: l, typ: i.Type()}
 	case *types.Pointer:
 		arr := xt.Elem().Underlying().(*types.Array)
